@@ -20,6 +20,7 @@ import (
 
 	"vharness/common"
 	"vharness/coqgen"
+	"vharness/floats"
 	"vharness/hashers"
 )
 
@@ -50,100 +51,6 @@ type obs struct {
 	val   *big.Int
 	panic bool
 	msg   string
-}
-
-type floatRec struct {
-	parse map[string]*uint64 // nil = error
-	canon map[uint64]string
-	ofInt map[string]uint64
-}
-
-func newFloatRec() *floatRec {
-	return &floatRec{parse: map[string]*uint64{}, canon: map[uint64]string{}, ofInt: map[string]uint64{}}
-}
-
-func (fr *floatRec) addBits(b uint64) {
-	for i := 0; i < 3; i++ {
-		if _, ok := fr.canon[b]; ok {
-			return
-		}
-		c := ld.GetCanonicalDouble(math.Float64frombits(b))
-		fr.canon[b] = c
-		f, err := strconv.ParseFloat(c, 64)
-		if err != nil {
-			fr.parse[c] = nil
-			return
-		}
-		nb := math.Float64bits(f)
-		fr.parse[c] = &nb
-		b = nb
-	}
-}
-
-func (fr *floatRec) addStr(s string) {
-	if _, ok := fr.parse[s]; ok {
-		return
-	}
-	f, err := strconv.ParseFloat(s, 64)
-	if err != nil {
-		fr.parse[s] = nil
-		return
-	}
-	b := math.Float64bits(f)
-	fr.parse[s] = &b
-	fr.addBits(b)
-}
-
-func (fr *floatRec) addInt(v *big.Int, unsigned bool) {
-	var f float64
-	if unsigned {
-		f = float64(v.Uint64())
-	} else {
-		f = float64(v.Int64())
-	}
-	b := math.Float64bits(f)
-	fr.ofInt[v.String()] = b
-	fr.addBits(b)
-}
-
-func bitsBig(b uint64) *big.Int { return new(big.Int).SetUint64(b) }
-
-func (fr *floatRec) coq(f *coqgen.File) string {
-	var ps, cs, is []string
-	for _, k := range sortedKeys(fr.parse) {
-		v := fr.parse[k]
-		if v == nil {
-			ps = append(ps, fmt.Sprintf("(%s, None)", f.Str(k)))
-		} else {
-			ps = append(ps, fmt.Sprintf("(%s, Some %s)", f.Str(k), coqgen.Limbs(bitsBig(*v))))
-		}
-	}
-	for b, c := range fr.canon {
-		cs = append(cs, fmt.Sprintf("(%s, %s)", coqgen.Limbs(bitsBig(b)), f.Str(c)))
-	}
-	for _, k := range sortedKeys(fr.ofInt) {
-		z, _ := new(big.Int).SetString(k, 10)
-		is = append(is, fmt.Sprintf("(%s, %s)", coqgen.SNum(z), coqgen.Limbs(bitsBig(fr.ofInt[k]))))
-	}
-	return fmt.Sprintf("{| rf_parse := %s;\n rf_canon := %s;\n rf_of_int := %s |}",
-		coqgen.List(ps), coqgen.List(cs), coqgen.List(is))
-}
-
-func sortedKeys[V any](m map[string]V) []string {
-	ks := make([]string, 0, len(m))
-	for k := range m {
-		ks = append(ks, k)
-	}
-	sortStrings(ks)
-	return ks
-}
-
-func sortStrings(a []string) {
-	for i := 1; i < len(a); i++ {
-		for j := i; j > 0 && a[j] < a[j-1]; j-- {
-			a[j], a[j-1] = a[j-1], a[j]
-		}
-	}
 }
 
 // goValue builds the Go value passed to HashValue.
@@ -212,7 +119,7 @@ func (in *Input) coq(f *coqgen.File) string {
 		case "bool":
 			v = "RGBool " + coqgen.Bool(in.Bool)
 		case "float":
-			v = "RGFloat " + coqgen.Limbs(bitsBig(in.Bits))
+			v = "RGFloat " + coqgen.Limbs(floats.BitsBig(in.Bits))
 		default:
 			v = "RGOther"
 		}
@@ -269,7 +176,7 @@ type gen struct {
 	rep    *common.Report
 	recs   []*hashers.Recorder
 	primes []*big.Int
-	fr     *floatRec
+	fr     *floats.Rec
 	cases  []*Input
 	obs    []obs
 }
@@ -279,15 +186,15 @@ func (g *gen) add(in *Input) obs {
 	if in.Kind == "hash" && in.DT == xsd+"double" {
 		switch in.GoKind {
 		case "string":
-			g.fr.addStr(in.Str)
+			g.fr.AddStr(in.Str)
 		case "int":
-			g.fr.addInt(in.Int, false)
+			g.fr.AddInt(in.Int, false)
 		case "uint":
-			g.fr.addInt(in.Int, true)
+			g.fr.AddInt(in.Int, true)
 		}
 	}
 	if in.Kind == "hash" && in.GoKind == "float" {
-		g.fr.addBits(in.Bits)
+		g.fr.AddBits(in.Bits)
 	}
 	o := runImpl(g.recs[in.Hasher], in)
 	g.cases = append(g.cases, in)
@@ -934,7 +841,7 @@ func (g *gen) writeShards() error {
 			g.rep.Case(name, i, in)
 		}
 		f.Add("Definition hashers_ : list raw_hasher := " + coqgen.List(hs) + ".")
-		f.Add("Definition floats_ : raw_floats := " + g.fr.coq(f) + ".")
+		f.Add("Definition floats_ : raw_floats := " + g.fr.Coq(f) + ".")
 		f.Add("Definition cases_ : list vcase := " + coqgen.List(cs) + ".")
 		f.Add("Definition M := Eval vm_compute in vmismatches hashers_ floats_ cases_.")
 		f.Add("Print M.")
@@ -950,7 +857,7 @@ func Run(cfg *common.Config) (*common.Report, error) {
 	rep := common.NewReport("C04")
 	rep.Correspondence = "Value.Run.vmismatches: value_to_hash / mk_value_entry (Value/Model.v) vs merklize.HashValueWithHasher / Value.MtEntry"
 	rep.Rule = "boundary grid (lo-2..lo+2, -2..2, hi-2..hi+2, p-2..p+2; whole field for p<64) x 5 integer types x 9 primes x lexical/Go-typed spellings; boolean forms; dateTime instants x offsets x fraction digits; doubles; strings; malformed stream. distinct = distinct (hasher,datatype,Go kind,value) tuples; every case is non-trivial (it reaches a datatype branch)."
-	g := &gen{cfg: cfg, rep: rep, fr: newFloatRec()}
+	g := &gen{cfg: cfg, rep: rep, fr: floats.New()}
 	// hasher 0: the repository's default; then small primes
 	g.recs = append(g.recs, hashers.NewRecorder(hashers.Default()))
 	g.primes = append(g.primes, new(big.Int).Set(constants.Q))
